@@ -14,7 +14,7 @@ RMont     == TwoW %% N
 RInv      == ModInv(RMont, N)
 FlagOf(b) == IF b THEN 1 ELSE 0
 
-Classes == {"sum_window", "diff_borrow", "mont_window", "mont_sqr_window", "decode_ge_n", "decode_lt_n",
+Classes == {"canon_repr", "sum_window", "diff_borrow", "mont_window", "mont_sqr_window", "decode_ge_n", "decode_lt_n",
             "canon_reject", "canon_accept", "inv_zero", "inv_special", "alias_all", "alias_recv",
             "half_boundary", "gt_half", "le_half", "sum_empty", "sum_alias", "sum_long", "prod_empty",
             "pow2k_panic", "near_n", "near_zero", "cneg_zero"}
@@ -91,6 +91,8 @@ Verdict(ev) ==
     [] ev.ev = "sc.NewFromCanonical" ->
          LET d == SDecodeCanonical(H(ev["in"])) IN
          << IF d[1] = "ok" THEN ev.ok /\ ~ev.retnil /\ ev.out = ev["in"] ELSE ~ev.ok /\ ev.retnil, {} >>
+    [] ev.ev = "sc.Canon" ->        \* internal representation: the limbs hold the canonical residue v*R, so the predicates agree with the encoding
+         << IntIsHex(SMul(H(ev.v), RMont), W, ev.mont) /\ ev.iszero = FlagOf(BigEq(H(ev.v), 0)) /\ ev.eq_fresh = 1, {"canon_repr"} >>
     [] ev.ev = "sc.Zero" -> << Is(0, ev.out), {} >>
     [] ev.ev = "sc.One"  -> << Is(1, ev.out), {} >>
     [] ev.ev = "sc.Const" ->
